@@ -12,6 +12,10 @@
   Partial: rounding (audited on every run), the injectivity radius in floating point.
 -/
 import SmoothProofs.C07Laws
+import SmoothProofs.C07GlueRound
+import SmoothProofs.C07GlueBundle
+import Mathlib.Analysis.SpecialFunctions.Trigonometric.Bounds
+import Mathlib.Analysis.Real.Pi.Bounds
 
 open Scalar Lin Manif
 
@@ -276,5 +280,285 @@ example : ∃ (h : AnyHeap.Heap Nat) (a : AnyHeap.Handle) (v : Nat),
 example : ∃ V D C, ManLaws (vector (sub (ofLie (Tn.model 3 : LieModel ℝ)))) V D C :=
   ⟨_, _, _, vector_axioms_lift (sub_axioms_lift (lie_laws (tn_lieLaws 3)))
     (by intro d hd; simp [sub] at hd) _⟩
+
+/-! ## the concrete group models (glue to C01 + C02)
+
+  C01 gives `IsMatrixGroup G Valid` (the coefficient operations realise a matrix group), C02 the
+  exp/log round trips in the closed-form branches.  Coefficient-level associativity FAILS for the
+  quaternion groups (C01 `so3_composition_not_assoc`), so the axioms are derived through the
+  matrix: the transformation determines the canonical coefficient vector (`CanonRep`; for
+  quaternions: `w ≥ 0` for every composition result, `w > 0` for the element to be recovered).
+  Every hypothesis of the C02 theorems appears explicitly. -/
+
+/-- generic: a matrix group with canonical representatives satisfies the manifold axioms on the
+    tangents / pairs whose exp/log round trip is exact (`RoundTripDom`, `RoundTripCompat`) -/
+theorem matrix_group_manifold_axioms {G : LieModel ℝ} {Valid Canon Strict : Vec ℝ G.rep → Prop}
+    (h : IsMatrixGroup G Valid) (c : CanonRep G Valid Canon Strict) :
+    ManLaws (ofLie G) Valid (fun g a => RoundTripDom G Valid Strict g (vecOfList a))
+      (RoundTripCompat G Strict) :=
+  (lieAxioms_of_matrixGroup h c).manLaws
+
+/-- SO2 (`a ∈ (−π, π]`, unit complex numbers) -/
+theorem so2_manifold_axioms :
+    (∀ (g : Vec ℝ 2) (a : Vec ℝ 1), SO2.Unit g → -Real.pi < a 0 → a 0 ≤ Real.pi →
+      (SO2.model : LieModel ℝ).rminus ((SO2.model : LieModel ℝ).rplus g a) g = a) ∧
+    (∀ g g2 : Vec ℝ 2, SO2.Unit g → SO2.Unit g2 →
+      (SO2.model : LieModel ℝ).rplus g ((SO2.model : LieModel ℝ).rminus g2 g) = g2) ∧
+    (∀ g : Vec ℝ 2, SO2.Unit g → (SO2.model : LieModel ℝ).rminus g g = vzero 1) := by
+  refine ⟨?_, ?_, ?_⟩
+  · intro g a hg h1 h2
+    exact matrix_rminus_rplus SO2.isMatrixGroup so2_canonRep g a hg (so2_exp_unit a) trivial
+      (C02.so2_log_exp a h1 h2)
+  · intro g g2 hg hg2
+    refine matrix_rplus_rminus SO2.isMatrixGroup so2_canonRep g g2 hg hg2 trivial ?_
+    have hy : SO2.Unit (SO2.composition (SO2.inverse g) g2) :=
+      SO2.unit_composition _ _ (SO2.unit_inverse g hg) hg2
+    have hy' : (SO2.composition (SO2.inverse g) g2) 0 * (SO2.composition (SO2.inverse g) g2) 0
+        + (SO2.composition (SO2.inverse g) g2) 1 * (SO2.composition (SO2.inverse g) g2) 1 = 1 := by
+      unfold SO2.Unit at hy; nlinarith [hy]
+    exact C02.so2_exp_log (SO2.composition (SO2.inverse g) g2) hy'
+  · intro g hg
+    exact matrix_rminus_self SO2.isMatrixGroup so2_canonRep g hg
+
+/-- C1 (`a₁ ∈ (−π, π]`, non-zero complex numbers) -/
+theorem c1_manifold_axioms :
+    (∀ (g : Vec ℝ 2) (a : Vec ℝ 2), C1.Valid g → -Real.pi < a 1 → a 1 ≤ Real.pi →
+      (C1.model : LieModel ℝ).rminus ((C1.model : LieModel ℝ).rplus g a) g = a) ∧
+    (∀ g g2 : Vec ℝ 2, C1.Valid g → C1.Valid g2 →
+      (C1.model : LieModel ℝ).rplus g ((C1.model : LieModel ℝ).rminus g2 g) = g2) ∧
+    (∀ g : Vec ℝ 2, C1.Valid g → (C1.model : LieModel ℝ).rminus g g = vzero 2) := by
+  refine ⟨?_, ?_, ?_⟩
+  · intro g a hg h1 h2
+    exact matrix_rminus_rplus C1.isMatrixGroup c1_canonRep g a hg (c1_exp_valid a) trivial
+      (C02.c1_log_exp a h1 h2)
+  · intro g g2 hg hg2
+    refine matrix_rplus_rminus C1.isMatrixGroup c1_canonRep g g2 hg hg2 trivial ?_
+    have hy : C1.Valid (C1.composition (C1.inverse g) g2) :=
+      C1.isMatrixGroup.valid_composition _ _ (C1.isMatrixGroup.valid_inverse g hg) hg2
+    have hy' : (C1.composition (C1.inverse g) g2) 0 * (C1.composition (C1.inverse g) g2) 0
+        + (C1.composition (C1.inverse g) g2) 1 * (C1.composition (C1.inverse g) g2) 1 ≠ 0 := by
+      unfold C1.Valid at hy; intro h0; apply hy; nlinarith [h0]
+    exact C02.c1_exp_log (C1.composition (C1.inverse g) g2) hy'
+  · intro g hg
+    exact matrix_rminus_self C1.isMatrixGroup c1_canonRep g hg
+
+/-- Eigen vectors of any size: unconditional -/
+theorem tn_manifold_axioms (n : Nat) :
+    (∀ g a : Vec ℝ n, (Tn.model n : LieModel ℝ).rminus ((Tn.model n : LieModel ℝ).rplus g a) g = a) ∧
+    (∀ g g2 : Vec ℝ n, (Tn.model n : LieModel ℝ).rplus g ((Tn.model n : LieModel ℝ).rminus g2 g) = g2) ∧
+    (∀ g : Vec ℝ n, (Tn.model n : LieModel ℝ).rminus g g = vzero n) :=
+  ⟨fun g a => matrix_rminus_rplus (Tn.isMatrixGroup n) (tn_canonRep n) g a trivial trivial trivial rfl,
+   fun g g2 => matrix_rplus_rminus (Tn.isMatrixGroup n) (tn_canonRep n) g g2 trivial trivial trivial rfl,
+   fun g => matrix_rminus_self (Tn.isMatrixGroup n) (tn_canonRep n) g trivial⟩
+
+/-- SE2: principal angle; the closed-form branch (`θ² ≥ eps2`) or exactly `θ = 0`; for
+    `rplus ∘ rminus` the same about the angle of the relative element `y = g⁻¹ ∘ g₂` -/
+theorem se2_manifold_axioms :
+    (∀ (g : Vec ℝ 4) (a : Vec ℝ 3), SE2.Unit g → -Real.pi < a 2 → a 2 ≤ Real.pi →
+      (¬ a 2 * a 2 < Scalar.eps2 ∨ a 2 = 0) →
+      (SE2.model : LieModel ℝ).rminus ((SE2.model : LieModel ℝ).rplus g a) g = a) ∧
+    (∀ g g2 : Vec ℝ 4, SE2.Unit g → SE2.Unit g2 →
+      (let y := SE2.composition (SE2.inverse g) g2
+       ¬ Complex.arg ⟨y 3, y 2⟩ * Complex.arg ⟨y 3, y 2⟩ < Scalar.eps2 ∨ (y 2 = 0 ∧ y 3 = 1)) →
+      (SE2.model : LieModel ℝ).rplus g ((SE2.model : LieModel ℝ).rminus g2 g) = g2) ∧
+    (∀ g : Vec ℝ 4, SE2.Unit g → (SE2.model : LieModel ℝ).rminus g g = vzero 3) := by
+  refine ⟨?_, ?_, ?_⟩
+  · intro g a hg h1 h2 hb
+    refine matrix_rminus_rplus SE2.isMatrixGroup se2_canonRep g a hg (se2_exp_unit a) trivial ?_
+    rcases hb with hb | hb
+    · exact C02.se2_log_exp a h1 h2 hb
+    · exact C02.se2_log_exp_zero a hb
+  · intro g g2 hg hg2 hb
+    refine matrix_rplus_rminus SE2.isMatrixGroup se2_canonRep g g2 hg hg2 trivial ?_
+    have hy : SE2.Unit (SE2.composition (SE2.inverse g) g2) :=
+      SE2.isMatrixGroup.valid_composition _ _ (SE2.isMatrixGroup.valid_inverse g hg) hg2
+    rcases hb with hb | hb
+    · have hy' : (SE2.composition (SE2.inverse g) g2) 2 * (SE2.composition (SE2.inverse g) g2) 2
+          + (SE2.composition (SE2.inverse g) g2) 3 * (SE2.composition (SE2.inverse g) g2) 3 = 1 := by
+        unfold SE2.Unit at hy; nlinarith [hy]
+      exact C02.se2_exp_log (SE2.composition (SE2.inverse g) g2) hy' hb
+    · exact C02.se2_exp_log_zero (SE2.composition (SE2.inverse g) g2) hb.1 hb.2
+  · intro g hg
+    exact matrix_rminus_self SE2.isMatrixGroup se2_canonRep g hg
+
+/-- SO3: unit quaternions; `SO3Dom a` = closed-form branch of `exp` and of `log ∘ exp`, `‖a‖ < π`;
+    for `rplus ∘ rminus`: the target has `w > 0` (at `w = 0`, a half turn, the result can be the
+    other quaternion `−g₂` of the same rotation) and the relative rotation is in the closed-form
+    branch of `log` -/
+theorem so3_manifold_axioms :
+    (∀ (g : Vec ℝ 4) (a : Vec ℝ 3), SO3.Unit g → SO3Dom a →
+      (SO3.model : LieModel ℝ).rminus ((SO3.model : LieModel ℝ).rplus g a) g = a) ∧
+    (∀ g g2 : Vec ℝ 4, SO3.Unit g → SO3.Unit g2 → 0 < g2 3 →
+      ¬ C02.xyz2 (SO3.composition (SO3.inverse g) g2) < Scalar.eps2 →
+      (SO3.model : LieModel ℝ).rplus g ((SO3.model : LieModel ℝ).rminus g2 g) = g2) ∧
+    (∀ g : Vec ℝ 4, SO3.Unit g → (SO3.model : LieModel ℝ).rminus g g = vzero 3) := by
+  refine ⟨?_, ?_, ?_⟩
+  · intro g a hg hd
+    exact matrix_rminus_rplus SO3.isMatrixGroup so3_canonRep g a hg (so3_exp_unit a hd.1)
+      (so3_exp_w_pos a hd.1 hd.2.2) (C02.so3_log_exp a hd.1 hd.2.1 hd.2.2)
+  · intro g g2 hg hg2 hs hb
+    refine matrix_rplus_rminus SO3.isMatrixGroup so3_canonRep g g2 hg hg2 hs ?_
+    have hy : SO3.Unit (SO3.composition (SO3.inverse g) g2) :=
+      SO3.unit_composition _ _ (SO3.unit_inverse g hg) hg2
+    exact C02.so3_exp_log _ (unitQ_of_so3Unit _ hy) (SO3.canon_composition _ _) hb
+  · intro g hg
+    exact matrix_rminus_self SO3.isMatrixGroup so3_canonRep g hg
+
+/-- SE3: unit rotation part; `RotDom ω` for the rotation part `ω` of the tangent -/
+theorem se3_manifold_axioms :
+    (∀ (g : Vec ℝ 7) (a : Vec ℝ 6), SE3.Unit g → RotDom (SE3.tw a) →
+      (SE3.model : LieModel ℝ).rminus ((SE3.model : LieModel ℝ).rplus g a) g = a) ∧
+    (∀ g g2 : Vec ℝ 7, SE3.Unit g → SE3.Unit g2 → 0 < (SE3.so3 g2) 3 →
+      ¬ C02.xyz2 (SE3.so3 (SE3.composition (SE3.inverse g) g2)) < Scalar.eps2 →
+      (SE3.model : LieModel ℝ).rplus g ((SE3.model : LieModel ℝ).rminus g2 g) = g2) ∧
+    (∀ g : Vec ℝ 7, SE3.Unit g → (SE3.model : LieModel ℝ).rminus g g = vzero 6) := by
+  refine ⟨?_, ?_, ?_⟩
+  · intro g a hg hd
+    have hnb : ¬ sqNorm (SE3.tw a) < Scalar.eps2 := not_lt.mpr hd.1.le
+    refine matrix_rminus_rplus SE3.isMatrixGroup se3_canonRep g a hg ?_ ?_
+      (C02.se3_log_exp a hd.1 hd.2.1 hd.2.2)
+    · show SO3.Unit (SE3.so3 (SE3.exp a))
+      rw [se3_so3_exp]; exact so3_exp_unit _ hnb
+    · show 0 < (SE3.so3 (SE3.exp a)) 3
+      rw [se3_so3_exp]; exact so3_exp_w_pos _ hnb hd.2.2
+  · intro g g2 hg hg2 hs hb
+    refine matrix_rplus_rminus SE3.isMatrixGroup se3_canonRep g g2 hg hg2 hs ?_
+    have hy : SE3.Unit (SE3.composition (SE3.inverse g) g2) :=
+      SE3.unit_composition _ _ (SE3.unit_inverse g hg) hg2
+    exact C02.se3_exp_log _ (unitQ_of_so3Unit _ hy) (se3_canon_comp _ _) hb
+  · intro g hg
+    exact matrix_rminus_self SE3.isMatrixGroup se3_canonRep g hg
+
+/-- Galilei -/
+theorem galilei_manifold_axioms :
+    (∀ (g : Vec ℝ 11) (a : Vec ℝ 10), Galilei.Unit g → RotDom (Galilei.tw a) →
+      (Galilei.model : LieModel ℝ).rminus ((Galilei.model : LieModel ℝ).rplus g a) g = a) ∧
+    (∀ g g2 : Vec ℝ 11, Galilei.Unit g → Galilei.Unit g2 → 0 < (Galilei.gq g2) 3 →
+      ¬ C02.xyz2 (Galilei.gq (Galilei.composition (Galilei.inverse g) g2)) < Scalar.eps2 →
+      (Galilei.model : LieModel ℝ).rplus g ((Galilei.model : LieModel ℝ).rminus g2 g) = g2) ∧
+    (∀ g : Vec ℝ 11, Galilei.Unit g → (Galilei.model : LieModel ℝ).rminus g g = vzero 10) := by
+  refine ⟨?_, ?_, ?_⟩
+  · intro g a hg hd
+    have hnb : ¬ sqNorm (Galilei.tw a) < Scalar.eps2 := not_lt.mpr hd.1.le
+    refine matrix_rminus_rplus Galilei.isMatrixGroup galilei_canonRep g a hg ?_ ?_
+      (C02.galilei_log_exp a hd.1 hd.2.1 hd.2.2)
+    · show SO3.Unit (Galilei.gq (Galilei.exp a))
+      rw [gal_gq_exp]; exact so3_exp_unit _ hnb
+    · show 0 < (Galilei.gq (Galilei.exp a)) 3
+      rw [gal_gq_exp]; exact so3_exp_w_pos _ hnb hd.2.2
+  · intro g g2 hg hg2 hs hb
+    refine matrix_rplus_rminus Galilei.isMatrixGroup galilei_canonRep g g2 hg hg2 hs ?_
+    have hy : Galilei.Unit (Galilei.composition (Galilei.inverse g) g2) :=
+      Galilei.unit_composition _ _ (Galilei.unit_inverse g hg) hg2
+    exact C02.galilei_exp_log _ (unitQ_of_so3Unit _ hy) (galilei_canon_comp _ _) hb
+  · intro g hg
+    exact matrix_rminus_self Galilei.isMatrixGroup galilei_canonRep g hg
+
+/-- SE_K_3 for every K -/
+theorem sek3_manifold_axioms (k : Nat) :
+    (∀ (g : Vec ℝ (4 + 3 * k)) (a : Vec ℝ (3 + 3 * k)), SEK3.Unit k g → RotDom (SEK3.tw k a) →
+      (SEK3.model k : LieModel ℝ).rminus ((SEK3.model k : LieModel ℝ).rplus g a) g = a) ∧
+    (∀ g g2 : Vec ℝ (4 + 3 * k), SEK3.Unit k g → SEK3.Unit k g2 → 0 < (SEK3.gq k g2) 3 →
+      ¬ C02.xyz2 (SEK3.gq k (SEK3.composition k (SEK3.inverse k g) g2)) < Scalar.eps2 →
+      (SEK3.model k : LieModel ℝ).rplus g ((SEK3.model k : LieModel ℝ).rminus g2 g) = g2) ∧
+    (∀ g : Vec ℝ (4 + 3 * k), SEK3.Unit k g →
+      (SEK3.model k : LieModel ℝ).rminus g g = vzero (3 + 3 * k)) := by
+  refine ⟨?_, ?_, ?_⟩
+  · intro g a hg hd
+    have hnb : ¬ sqNorm (SEK3.tw k a) < Scalar.eps2 := not_lt.mpr hd.1.le
+    refine matrix_rminus_rplus (SEK3.isMatrixGroup k) (sek3_canonRep k) g a hg ?_ ?_
+      (C02.sek3_log_exp k a hd.1 hd.2.1 hd.2.2)
+    · show SO3.Unit (SEK3.gq k (SEK3.exp k a))
+      rw [sek3_gq_exp]; exact so3_exp_unit _ hnb
+    · show 0 < (SEK3.gq k (SEK3.exp k a)) 3
+      rw [sek3_gq_exp]; exact so3_exp_w_pos _ hnb hd.2.2
+  · intro g g2 hg hg2 hs hb
+    refine matrix_rplus_rminus (SEK3.isMatrixGroup k) (sek3_canonRep k) g g2 hg hg2 hs ?_
+    have hy : SEK3.Unit k (SEK3.composition k (SEK3.inverse k g) g2) :=
+      SEK3.unit_composition k _ _ (SEK3.unit_inverse k g hg) hg2
+    exact C02.sek3_exp_log k _ (unitQ_of_so3Unit _ hy) (sek3_canon_comp k _ _) hb
+  · intro g hg
+    exact matrix_rminus_self (SEK3.isMatrixGroup k) (sek3_canonRep k) g hg
+
+/-- `Bundle<Gs...>`: the axioms of any list of parts lift to the Bundle (validity, domain and
+    compatibility part by part on the prefix-sum layout), by induction over the list -/
+theorem bundle_manifold_axioms (ps : List AModel)
+    (h : ∀ p ∈ ps, LieAxioms p.G p.Valid p.Dom p.Compat) :
+    LieAxioms (Bundle.bundle (ps.map AModel.G)) (bundleValidA ps) (bundleDomA ps) (bundleCompatA ps) :=
+  bundle_lieAxioms ps h
+
+/-! ### non-vacuity of the SO3 hypotheses and the concrete adaptor corollaries -/
+
+/-- the tangent `(1, 0, 0)` (a rotation by 1 rad) satisfies `SO3Dom`, hence `RotDom` -/
+theorem so3Dom_e1 : SO3Dom (mk3 1 0 0) ∧ RotDom (mk3 1 0 0) := by
+  have hn : sqNorm (mk3 (1 : ℝ) 0 0) = 1 := by rw [C02.sqNorm3]; simp [mk3]
+  have hclosed : ¬ sqNorm (mk3 (1 : ℝ) 0 0) < Scalar.eps2 := by
+    rw [hn, C02.scalar_eps2]; norm_num
+  have hpi : Real.sqrt (sqNorm (mk3 (1 : ℝ) 0 0)) < Real.pi := by
+    rw [hn, Real.sqrt_one]; linarith [Real.pi_gt_three]
+  have hc : 0 < Real.cos (1 / 2) := by
+    apply Real.cos_pos_of_mem_Ioo
+    constructor <;> linarith [Real.pi_gt_three]
+  have hs : (15 : ℝ) / 32 < Real.sin (1 / 2) := by
+    have := Real.sin_gt_sub_cube (x := 1 / 2) (by norm_num)
+    norm_num at this ⊢
+    linarith
+  have hx : ¬ C02.xyz2 (SO3.exp (mk3 (1 : ℝ) 0 0)) < Scalar.eps2 := by
+    rw [C02.so3_exp_eq_closed _ hclosed]
+    unfold C02.so3ExpClosed
+    simp only [hn, Real.sqrt_one]
+    rw [SO3.canon_of_nonneg _ (by simpa [mk4, Vec.of] using hc.le)]
+    simp only [C02.xyz2, mk4, mk3, Vec.of_get, C02.scalar_eps2]
+    norm_num
+    nlinarith [hs]
+  refine ⟨⟨hclosed, hx, hpi⟩, ⟨?_, hx, hpi⟩⟩
+  rw [hn, C02.scalar_eps2]; norm_num
+
+/-- `std::vector<SO3>`: all axioms, element by element -/
+theorem vector_so3_manifold_axioms (u : Nat → ℝ) :
+    ManLaws (vector (ofLie (SO3.model : LieModel ℝ)) u) (fun ms => ∀ m ∈ ms, SO3.Unit m)
+      (DomSegs (ofLie (SO3.model : LieModel ℝ))
+        (fun g a => RoundTripDom (SO3.model : LieModel ℝ) SO3.Unit (fun q : Vec ℝ 4 => 0 < q 3) g (vecOfList a)))
+      (List.Forall₂ (RoundTripCompat (SO3.model : LieModel ℝ) (fun q : Vec ℝ 4 => 0 < q 3))) :=
+  vector_axioms_lift (matrix_group_manifold_axioms SO3.isMatrixGroup so3_canonRep)
+    (by intro d hd m; simp [ofLie] at hd; exact hd) u
+
+/-- `SubManifold<SE3>` -/
+theorem sub_se3_manifold_axioms :
+    ManLaws (sub (ofLie (SE3.model : LieModel ℝ)))
+      (SubValid (ofLie (SE3.model : LieModel ℝ)) SE3.Unit)
+      (SubDom (ofLie (SE3.model : LieModel ℝ))
+        (fun g a => RoundTripDom (SE3.model : LieModel ℝ) SE3.Unit
+          (fun g : Vec ℝ 7 => 0 < (SE3.so3 g) 3) g (vecOfList a)))
+      (SubCompat (ofLie (SE3.model : LieModel ℝ))
+        (RoundTripCompat (SE3.model : LieModel ℝ) (fun g : Vec ℝ 7 => 0 < (SE3.so3 g) 3))) :=
+  sub_axioms_lift (matrix_group_manifold_axioms SE3.isMatrixGroup se3_canonRep)
+
+/-- `std::vector<SubManifold<SE2>>` (adaptors compose) -/
+theorem vector_sub_se2_manifold_axioms (u : Nat → ℝ) :
+    ∃ V D C, ManLaws (vector (sub (ofLie (SE2.model : LieModel ℝ))) u) V D C :=
+  ⟨_, _, _, vector_axioms_lift
+    (sub_axioms_lift (matrix_group_manifold_axioms SE2.isMatrixGroup se2_canonRep))
+    (by intro d hd; simp [sub] at hd) u⟩
+
+/-- the SO3 round-trip domain is implied by the C02 hypotheses plus `w > 0` of the result -/
+theorem so3_roundTripDom (g : Vec ℝ 4) (a : Vec ℝ 3) (hd : SO3Dom a)
+    (hs : 0 < (SO3.composition g (SO3.exp a)) 3) :
+    RoundTripDom (SO3.model : LieModel ℝ) SO3.Unit (fun q : Vec ℝ 4 => 0 < q 3) g a :=
+  ⟨so3_exp_unit a hd.1, so3_exp_w_pos a hd.1 hd.2.2, C02.so3_log_exp a hd.1 hd.2.1 hd.2.2, hs⟩
+
+-- non-vacuity: at the identity, the tangent (1,0,0) is in the round-trip domain
+example : RoundTripDom (SO3.model : LieModel ℝ) SO3.Unit (fun q : Vec ℝ 4 => 0 < q 3)
+    (SO3.identity : Vec ℝ 4) (mk3 1 0 0) := by
+  refine so3_roundTripDom _ _ so3Dom_e1.1 ?_
+  -- identity ∘ exp a = canon (exp a) = exp a, whose w is positive
+  have hw := so3_exp_w_pos (mk3 (1 : ℝ) 0 0) so3Dom_e1.1.1 so3Dom_e1.1.2.2
+  have hu := so3_exp_unit (mk3 (1 : ℝ) 0 0) so3Dom_e1.1.1
+  have : SO3.composition (SO3.identity : Vec ℝ 4) (SO3.exp (mk3 1 0 0)) = SO3.exp (mk3 1 0 0) := by
+    apply so3_matrix_inj _ _ (SO3.unit_composition _ _ SO3.unit_identity hu) hu
+      (SO3.canon_composition _ _) hw
+    rw [SO3.matrix_composition _ _ SO3.unit_identity hu, SO3.matrix_identity, ident_mmul]
+  rw [this]; exact hw
+
 
 end C07
